@@ -10,6 +10,7 @@ package main
 import (
 	"fmt"
 	"math/big"
+	"os"
 
 	"github.com/bronlabs/bron-crypto/pkg/commitments"
 )
@@ -17,11 +18,16 @@ import (
 func init() { register("C18", runC18) }
 
 func runC18(c *Ctx) {
-	c18Hash(c)
-	c18Pedersen(c)
-	c18ElGamal(c)
-	c18Int(c)
-	c18Paillier(c)
+	// C18_ONLY=<section> restricts the stream to one section (development aid only)
+	only := os.Getenv("C18_ONLY")
+	for _, s := range []struct {
+		name string
+		run  func(*Ctx)
+	}{{"hash", c18Hash}, {"ped", c18Pedersen}, {"eg", c18ElGamal}, {"int", c18Int}, {"pai", c18Paillier}} {
+		if only == "" || only == s.name {
+			s.run(c)
+		}
+	}
 }
 
 // c18Ops is a type-erased commitments.HomomorphicCommitmentKey.
